@@ -1726,6 +1726,17 @@ impl SctpInner {
         let _inbound_streams = buf.get_u16();
         let initial_tsn = buf.get_u32();
 
+        // A retransmitted, duplicated or late INIT of the association we already
+        // answered must not disturb it (RFC 4960 §5.2.2): once established it is
+        // ignored; before that it is answered with the same tag / initial TSN, so
+        // that every INIT ACK the peer may act on describes the same state.
+        let known_local_tag = self.verification_tag.load(Ordering::SeqCst);
+        let is_retransmit = known_local_tag != 0
+            && self.remote_verification_tag.load(Ordering::SeqCst) == initiate_tag;
+        if is_retransmit && *self.state.lock() == SctpState::Connected {
+            return Ok(());
+        }
+
         self.peer_rwnd.store(a_rwnd, Ordering::SeqCst);
         let init_ssthresh = (a_rwnd as usize).max(SSTHRESH_MIN);
         self.ssthresh.store(init_ssthresh, Ordering::SeqCst);
@@ -1735,7 +1746,11 @@ impl SctpInner {
             .store(initial_tsn.wrapping_sub(1), Ordering::SeqCst);
 
         // Generate local tag
-        let local_tag = random_u32();
+        let local_tag = if is_retransmit {
+            known_local_tag
+        } else {
+            random_u32()
+        };
         self.verification_tag.store(local_tag, Ordering::SeqCst);
 
         // Generate HMAC-protected state cookie
@@ -1751,7 +1766,11 @@ impl SctpInner {
         // Inbound streams
         init_ack_params.put_u16(10);
         // Initial TSN
-        let initial_tsn = random_u32();
+        let initial_tsn = if is_retransmit {
+            self.next_tsn.load(Ordering::SeqCst)
+        } else {
+            random_u32()
+        };
         #[cfg(rustrtc_verif)]
         let initial_tsn = verif::initial_tsn(self.local_port, false).unwrap_or(initial_tsn);
         self.next_tsn.store(initial_tsn, Ordering::SeqCst);
@@ -1784,6 +1803,11 @@ impl SctpInner {
     }
 
     async fn handle_init_ack(&self, chunk: Bytes) -> Result<()> {
+        // Only the INIT ACK we are waiting for counts (RFC 4960 §5.2.3): a duplicate
+        // or late one must not reset the TSN / tag state of a running association.
+        if !matches!(&*self.t1_chunk.lock(), Some((CT_INIT, _, _))) {
+            return Ok(());
+        }
         self.t1_cancel();
 
         let mut buf = chunk;
@@ -1837,6 +1861,11 @@ impl SctpInner {
     }
 
     async fn handle_cookie_ack(&self, _chunk: Bytes) -> Result<()> {
+        // A COOKIE ACK in any state other than COOKIE-ECHOED is discarded
+        // (RFC 4960 §5.2.5); otherwise channels would be announced open again.
+        if !matches!(&*self.t1_chunk.lock(), Some((CT_COOKIE_ECHO, _, _))) {
+            return Ok(());
+        }
         self.t1_cancel();
         *self.state.lock() = SctpState::Connected;
         self.advanced_peer_ack_tsn.store(
@@ -2249,6 +2278,12 @@ impl SctpInner {
         // Send COOKIE ACK
         let tag = self.remote_verification_tag.load(Ordering::SeqCst);
         self.send_chunk(CT_COOKIE_ACK, 0, Bytes::new(), tag).await?;
+
+        // A retransmitted COOKIE ECHO (our COOKIE ACK was lost or it was duplicated)
+        // is only acknowledged again; the association is already up.
+        if *self.state.lock() == SctpState::Connected {
+            return Ok(());
+        }
 
         *self.state.lock() = SctpState::Connected;
         self.advanced_peer_ack_tsn.store(
